@@ -109,7 +109,8 @@ def run(script):
             c = mk_composition([])
             for t in op[1]:
                 c.add_track(track_of(t))
-            rets.append(ret(s.play_Composition(c, op[2], op[3])))
+            # channels None = the argument is OMITTED (the default is used, call after call), as a caller would write it
+            rets.append(ret(s.play_Composition(c, bpm=op[3]) if op[2] is None else s.play_Composition(c, op[2], op[3])))
         elif k == "cc":
             fl_ = lambda x: float(x) if isinstance(x, F) else x
             rets.append(ret(s.control_change(op[1], fl_(op[2]), fl_(op[3]))))
